@@ -11,6 +11,7 @@ class FakeSock(object):
     def __init__(self):
         self.wire = b""
         self.inbound = b""
+        self.failed = False       # GHOST: a recv() has failed (connection reset by the peer)
 
     def send(self, buf):
         if any_bool("send-would-block"):
@@ -21,6 +22,7 @@ class FakeSock(object):
 
     def recv(self, bufsize):
         if any_bool("recv-fails"):
+            self.failed = True
             raise ConnectionResetError()
         n = any_int("received", 0, len(self.inbound))
         data = self.inbound[:n]
